@@ -184,39 +184,49 @@ def _rec_children(f: Func):
 
 
 def _const(run, P):
+    from .util import find, first, has
     C = P.cls(f"{MOD}._ConstantFindingMapper")
     mv = C.methods["map_variable"]
-    src = ast.unparse(mv.node)
-    run.ob("C18.const", mv, mv.node, "result = expr not in self.free_variables" in src
-           and "self.is_constant[expr] = result" in src,
+    e = mv.params[1]
+    r = first(f"V_r = {e} not in self.free_variables", mv.node)
+    ok = r[0] is not None and has(f"self.is_constant[{e}] = {r[1]['V_r']}", mv.node) \
+        and any(isinstance(x, ast.Return) and dotted(x.value) == r[1]["V_r"]
+                for x in ast.walk(mv.node))
+    run.ob("C18.const", mv, mv.node, bool(ok),
            construct="map_variable: constant iff not in free_variables",
            why="a free variable classified constant is hoisted out of its scope")
     mc = C.methods["map_constant"]
-    run.ob("C18.const", mc, mc.node, "self.is_constant[expr] = True" in ast.unparse(mc.node),
+    run.ob("C18.const", mc, mc.node, has(f"self.is_constant[{mc.params[1]}] = True", mc.node),
            construct="map_constant: constant",
            why="literal")
     cb = C.methods["combine"]
-    src = ast.unparse(cb.node)
-    run.ob("C18.const", cb, cb.node, "reduce(operator.and_, exprs)" in src
-           and "self.is_constant[current_expr] = result" in src,
+    r = first(f"V_r = reduce(operator.and_, {cb.params[1]})", cb.node)
+    cur = first("V_c = self.node_stack.pop()", cb.node)
+    ok = r[0] is not None and cur[0] is not None \
+        and has(f"self.is_constant[{cur[1]['V_c']}] = {r[1]['V_r']}", cb.node)
+    run.ob("C18.const", cb, cb.node, bool(ok),
            construct="combine: constant iff all children are",
            why="any other combination hoists expressions that contain a free variable")
     E = P.cls(f"{MOD}._ExpressionCollapsingMapper")
     rec = E.methods["rec"]
+    e = rec.params[1]
     tests = [n for n in ast.walk(rec.node) if isinstance(n, ast.If)]
-    ok = bool(tests) and norm(tests[0].test) == "_is_atomic(expr) or not self.is_constant[expr]" \
-        and "IdentityMapper.rec(self, expr)" in ast.unparse(tests[0].body[0])
+    ok = bool(tests) and norm(tests[0].test) == f"_is_atomic({e}) or not self.is_constant[{e}]" \
+        and has(f"IdentityMapper.rec(self, {e})", tests[0].body[0])
     run.ob("C18.const", rec, tests[0] if tests else rec.node, ok,
            construct="rec: hoist only if not atomic and is_constant[expr]",
            why="hoisting a non-constant subexpression changes the value")
     ca = E.methods["map_commut_assoc"]
+    e = ca.params[1]
     ok = False
     for lp in ast.walk(ca.node):
-        if isinstance(lp, ast.For) and norm(lp.iter) == "expr.children":
-            b = lp.body[0]
-            ok = isinstance(b, ast.If) and norm(b.test) == "self.is_constant[child]" \
-                and "constants.append(child)" in ast.unparse(b.body[0]) \
-                and "non_constants.append(self.rec(child))" in ast.unparse(b.orelse[0])
+        if isinstance(lp, ast.For) and norm(lp.iter) == f"{e}.children" \
+                and isinstance(lp.target, ast.Name):
+            ch = lp.target.id
+            b_ = lp.body[0]
+            ok = isinstance(b_, ast.If) and norm(b_.test) == f"self.is_constant[{ch}]" \
+                and has(f"V_c.append({ch})", b_.body[0]) \
+                and has(f"V_n.append(self.rec({ch}))", b_.orelse[0])
     run.ob("C18.const", ca, ca.node, ok,
            construct="regrouping: children split by is_constant; non-constants are recursed",
            why="only constant children may be folded into the hoisted group")
@@ -272,19 +282,25 @@ def _pair(run, P):
                    construct=f"{name}: '{v}' = new_var_func() is stored once and takes the "
                              f"place of the hoisted subexpression",
                    why="a created variable that is not recorded is never assigned")
+    from .util import find, first, has
     d = P.func(f"{MOD}.collapse_constants")
     loops = [x for x in ast.walk(d.node) if isinstance(x, ast.For)]
-    ok = len(loops) == 1 and norm(loops[0].iter) == "variable_map.items()" \
-        and len(loops[0].body) == 1 \
-        and norm(loops[0].body[0]) == f"assign_func({norm(loops[0].target.elts[0])}, {norm(loops[0].target.elts[1])})" \
-        and "new_expression, variable_map = mapper(expression, new_var_func)" in ast.unparse(d.node)
+    ok = False
+    if len(loops) == 1 and isinstance(loops[0].target, ast.Tuple) and len(loops[0].body) == 1:
+        lp = loops[0]
+        a_, b_ = (dotted(t) for t in lp.target.elts)
+        assign_func = d.params[2]
+        r = first(f"V_new, V_map = V_m({d.params[0]}, {d.params[3]})", d.node)
+        ok = r[0] is not None and norm(lp.iter) == f"{r[1]['V_map']}.items()" \
+            and norm(lp.body[0]) == f"{assign_func}({a_}, {b_})"
     run.ob("C18.pair", d, loops[0] if loops else d.node, ok,
-           construct="for variable, expr in variable_map.items(): assign_func(variable, expr)",
+           construct="for variable, expr in <variable map>.items(): assign_func(variable, expr)",
            why="every new variable is assigned exactly once, with its own expression")
     c = E.methods["__call__"]
-    src = ast.unparse(c.node)
-    run.ob("C18.pair", c, c.node, "self.assignments = {}" in src
-           and "return (result, self.assignments)" in src,
+    r = first("V_r = IdentityMapper.__call__(self, ANY)", c.node)
+    ok = has("self.assignments = {}", c.node) and r[0] is not None \
+        and has(f"return ({r[1]['V_r']}, self.assignments)", c.node)
+    run.ob("C18.pair", c, c.node, bool(ok),
            construct="a new assignment table per top-level call, returned with the result",
            why="assignments of an earlier call must not leak")
     if n < 4:
